@@ -34,6 +34,8 @@ class Model:
         return ka == kb
 
     def swap(self, a, b):
+        if a == b:
+            return  # moving an assembly onto its own location changes nothing
         pa, pb = self.where(a), self.where(b)
         self._exchange_stationary(a, b)
         self.loc[pa], self.loc[pb] = b, a
